@@ -70,11 +70,23 @@ async def execute(net, hyg, plan):
             await asyncio.sleep(plan["late_close"])
             for s_ in d.sessions:
                 s_.peer.freeze()
-                if s_.peer.writer is not None:
-                    s_.peer.writer.transport.pause_reading()
-                for _r, w_ in s_.peer.data_conns:
-                    w_.transport.pause_reading()
+                if plan.get("late_read"):
+                    # ... or the peers finally read everything that was waiting for them (the closed transports flush and
+                    # finish on their own) and stay connected
+                    for tr_ in [s_.peer.writer.transport] if s_.peer.writer is not None else []:
+                        tr_.resume_reading()
+                    for _r, w_ in s_.peer.data_conns:
+                        w_.transport.resume_reading()
+                    for rd in [s_.peer.reader] + [r_ for r_, _w in s_.peer.data_conns]:
+                        d.drainers.append(asyncio.ensure_future(d._drain(rd)))
+                else:
+                    if s_.peer.writer is not None:
+                        s_.peer.writer.transport.pause_reading()
+                    for _r, w_ in s_.peer.data_conns:
+                        w_.transport.pause_reading()
                 s_.alive = False
+            if plan.get("late_read"):
+                await asyncio.sleep(5.0)
             cut = {"k": -1, "action": "server-close-late", "who": "all"}
             d.close_task = asyncio.ensure_future(w.server.close())
             d.cut_done = True
@@ -292,6 +304,8 @@ def gen_cases(tier, seed):
         for kw in ({"idle_timeout": 2}, {"socket_timeout": 2}, {"idle_timeout": 3, "socket_timeout": 2}, {}):
             cases.append({"kind": "single", "plan": {"scripts": ["late:" + name], "inline": [LATE[name]], "seed": seed, "late_close": 40.0,
                                                      "server_kwargs": kw}})
+            cases.append({"kind": "single", "plan": {"scripts": ["late-read:" + name], "inline": [LATE[name]], "seed": seed, "late_close": 40.0,
+                                                     "late_read": True, "server_kwargs": kw}})
     # reply flood: the peer never reads its control connection, the replies fill every buffer on the way back; then it
     # vanishes, or stays (silent, not reading) while Server.close() is called
     for action in ("server-close-noread", "server-close", "rst", "fin", "ctrl-rst-noread"):
